@@ -32,7 +32,8 @@ Lemma write_deltas_ok : forall m vs prev,
   write_deltas m vs prev = Ok (flat_map wr_i16 (map (fun p => snd p - fst p) (combine (prev :: vs) vs))).
 Proof.
   intros m vs. induction vs as [|v vs IH]; intros prev H; [reflexivity|].
-  destruct H as [Hd Hr]. cbn [write_deltas]. unfold m_sub. rewrite m_ck_in by (unfold i16_ok in Hd; cbn; lia).
+  destruct H as [Hd Hr]. cbn [write_deltas].
+  replace ((-32768 <=? v - prev) && (v - prev <=? 32767)) with true by (unfold i16_ok in Hd; lia).
   cbn [bind]. rewrite IH by exact Hr. cbn [bind combine map flat_map fst snd]. reflexivity.
 Qed.
 
@@ -45,8 +46,9 @@ Proof.
   - destruct flags; [|cbn [length] in Hlen; lia]. cbn [write_deltas] in Hw. injection Hw as <-. reflexivity.
   - destruct flags as [|f flags]; [cbn [length] in Hlen; lia|].
     inversion Hfl as [|? ? [Hs Hm] Hfl']; subst. destruct Hd as [Hd Hr].
-    cbn [write_deltas] in Hw. unfold m_sub in Hw.
-    rewrite m_ck_in in Hw by (unfold i16_ok in Hd; cbn; lia). cbn [bind] in Hw.
+    cbn [write_deltas] in Hw.
+    replace ((-32768 <=? v - prev) && (v - prev <=? 32767)) with true in Hw by (unfold i16_ok in Hd; lia).
+    cbn [bind] in Hw.
     destruct (write_deltas m vs v) as [rest| | |] eqn:Er; cbn [bind] in Hw; try discriminate.
     assert (bytes = wr_i16 (v - prev) ++ rest) as -> by congruence.
     cbn [tt_coords]. rewrite Hs, Hm. cbn [Z.eqb negb].
@@ -368,14 +370,16 @@ Proof. intros H HF. induction HF; constructor; auto. Qed.
    the provider returns an hmtx table that is the plain serialisation of the original metrics h,
    glyf and loca tables through which the TrueType reader finds exactly the original glyphs gs
    (contours, points, on-curve flags, instructions, bounding boxes, components), a head table
-   whose indexToLocFormat matches that loca, and every other table byte-identical. *)
+   whose indexToLocFormat matches that loca, and every other table byte-identical.
+   `Z.land flags 2 = 0`: the hmtx encoder kept the trailing leftSideBearing[] array; the other
+   choice is the known finding C11-hmtx-lsb-absent (hmtx_lsb_absent_differs). *)
 Theorem transformed_font_roundtrip :
-  forall m ts flavor index gs h gt lt ht hdt mt hht head long,
+  forall m ts flavor index gs h flags gt lt ht hdt mt hht head long,
   Forall tabspec_ok ts -> NoDup (map t_tag ts) ->
   In gt ts -> t_tag gt = tag_glyf -> t_transformed gt = true -> encodes_glyf_table Debug gs (t_data gt) ->
   In lt ts -> t_tag lt = tag_loca -> t_transformed lt = true ->
   In ht ts -> t_tag ht = tag_hmtx -> t_transformed ht = true ->
-  encodes_hmtx gs h (t_data ht) -> hmtx_ok gs h ->
+  encodes_hmtx_flags flags gs h (t_data ht) -> Z.land flags 2 = 0 -> hmtx_ok gs h ->
   In hdt ts -> t_tag hdt = tag_head -> t_transformed hdt = false -> read_head (t_data hdt) = Ok (head, long) ->
   In mt ts -> t_tag mt = tag_maxp -> t_transformed mt = false -> read_maxp (t_data mt) = Ok (len gs) ->
   In hht ts -> t_tag hht = tag_hhea -> t_transformed hht = false -> read_hhea (t_data hht) = Ok (len (fst h)) ->
@@ -387,8 +391,8 @@ Theorem transformed_font_roundtrip :
     (len G < 4294967296 ->
      exists offs, read_loca L (len gs) long' = Ok offs /\ tt_read_glyf G offs = Ok gs).
 Proof.
-  intros m ts flavor index gs h gt lt ht hdt mt hht head long Hok Hnd
-         Hgt Egt Tgt Hglyf Hlt Elt Tlt Hht Eht Tht Hhmtx Hhok Hhd Ehd Thd Rhd Hmt Emt Tmt Rmt Hhh Ehh Thh Rhh.
+  intros m ts flavor index gs h flags gt lt ht hdt mt hht head long Hok Hnd
+         Hgt Egt Tgt Hglyf Hlt Elt Tlt Hht Eht Tht Hhmtx Hbit Hhok Hhd Ehd Thd Rhd Hmt Emt Tmt Rmt Hhh Ehh Thh Rhh.
   pose proof Hglyf as (cs & bm & ifmt & oflags & Hcs & Hrest).
   assert (Forall glyph_tt_ok gs) as Htt.
   { clear - Hcs. induction Hcs as [|g c gs cs Hg _ IH]; constructor; [|exact IH].
@@ -406,7 +410,7 @@ Proof.
     pose proof (write_glyf_even m gs 0 G offs ltac:(reflexivity) Wg) as He.
     rewrite Forall_forall in *. intros o Ho. split; [specialize (Hf o Ho); lia|apply He; exact Ho]. }
   exists G, L, long'. split.
-  - apply (transformed_font_tables_partial m ts flavor index gs h gt lt ht hdt mt hht head long G offs L);
+  - apply (transformed_font_tables_partial m ts flavor index gs h flags gt lt ht hdt mt hht head long G offs L);
       assumption.
   - intros HG. exists offs.
     destruct (rebuilt_glyf_loca_read_back m (negb long) (negb long') gs G offs L Htt Wg HG Wl) as (R1 & R2).
